@@ -238,7 +238,64 @@ fn describe(n: usize, rules: &[&Rule]) -> String {
 /// general class and/or the precedence class), with a witness point and a message.
 struct Verdict {
     general: Option<(&'static str, u32, String)>,
-    precedence: Option<(u32, String)>,
+    precedence: Option<(u32, &'static str, String)>,
+}
+
+/// Which preflight merge of `overlay_feature_variations`, re-enacted here on the oracle's own
+/// data (point sets and map arrays), first puts another rule's output for glyph `g` ahead of the
+/// winner at point `p`: merging rules with identical maps into the slot of the first one, or
+/// merging rules with identical regions into the slot of the last one.
+fn precedence_mechanism(rules: &[&Rule], p: u32, g: usize, winner: u8) -> &'static str {
+    let bit = 1u64 << p;
+    type Key = Vec<Vec<Option<(u64, u64)>>>;
+    let boxes_of = |r: &Rule| -> Key {
+        r.ivs
+            .iter()
+            .map(|b| {
+                b.iter()
+                    .map(|iv| iv.filter(|x| *x != (-1.0, 1.0)).map(|(lo, hi)| (lo.to_bits(), hi.to_bits())))
+                    .collect()
+            })
+            .collect()
+    };
+    let first_for = |list: &[(Key, u64, MapArr)]| -> Option<u8> {
+        list.iter().filter(|e| e.1 & bit != 0).find_map(|e| e.2[g])
+    };
+    // step 1 (merge_same_sub_rules): identical maps share the slot of the first occurrence
+    let mut m1: Vec<(Key, u64, MapArr)> = vec![];
+    for r in rules {
+        match m1.iter_mut().find(|e| e.2 == r.map) {
+            Some(e) => {
+                e.0.extend(boxes_of(r));
+                e.1 |= r.mask;
+            }
+            None => m1.push((boxes_of(r), r.mask, r.map)),
+        }
+    }
+    if first_for(&m1) != Some(winner) {
+        return "same-input-precedence:merge-same-sub";
+    }
+    // step 2 (merge_same_region_rules): walk backwards, identical (sorted) regions share one slot,
+    // earlier rules overwrite later ones inside it; then reverse
+    let mut m2: Vec<(Key, u64, MapArr)> = vec![];
+    for (mut key, mask, map) in m1.into_iter().rev() {
+        key.sort();
+        match m2.iter_mut().find(|e| e.0 == key) {
+            Some(e) => {
+                for (slot, v) in e.2.iter_mut().zip(map) {
+                    if v.is_some() {
+                        *slot = v;
+                    }
+                }
+            }
+            None => m2.push((key, mask, map)),
+        }
+    }
+    m2.reverse();
+    if first_for(&m2) != Some(winner) {
+        return "same-input-precedence:merge-same-region";
+    }
+    "same-input-precedence:other"
 }
 
 fn check_case(n: usize, tg: &[Tag], rules: &[&Rule], cnt: &mut Counts) -> Verdict {
@@ -419,6 +476,7 @@ fn check_case(n: usize, tg: &[Tag], rules: &[&Rule], cnt: &mut Counts) -> Verdic
                     if !missing && !extra && o.1 != e.1 && verdict.precedence.is_none() {
                         verdict.precedence = Some((
                             p,
+                            precedence_mechanism(rules, p, g, e.1),
                             format!(
                                 "at {:?} rules {} all contain the point and substitute {}; the earliest gives {}, but the first output box containing the point ({nb:?}) lists {list:?}, whose first map for {} gives {}",
                                 point(n, p),
@@ -467,8 +525,8 @@ fn record(n: usize, rules: &[&Rule], seq: u64, v: Verdict, cls: &mut Classes) {
     if let Some((key, p, msg)) = v.general {
         cls.add(key, size, || (format!("{}: {msg}", describe(n, rules)), case_json(n, rules, Some(p))));
     }
-    if let Some((p, msg)) = v.precedence {
-        cls.add("same-input-precedence", size, || {
+    if let Some((p, key, msg)) = v.precedence {
+        cls.add(key, size, || {
             (format!("{}: {msg}", describe(n, rules)), case_json(n, rules, Some(p)))
         });
     }
@@ -783,7 +841,728 @@ fn part_pure(rep: &mut Reporter, tier: Tier) -> Stats {
     }
 }
 
-// fn part_font(rep: &mut Reporter, tier: Tier) -> Stats { ... }   // (ii): added later
+
+// ================================================================== part (ii): end to end
+//
+// designspace <rules> -> real compile -> GSUB FeatureVariations evaluated by otlayout at the
+// offset grid (mapped to user space, normalized by otvar through fvar/avar) -> compared with
+// designspaceLib `processRules` semantics computed from the rule list itself.
+
+const FGLYPHS: [&str; 6] = ["a", "b", "c", "d", "zed", "bee"];
+/// glyphs whose fate is observed
+const FINPUTS: [&str; 4] = ["a", "b", "c", "d"];
+/// Font-level substitution maps: T1 material (0-2, 0-3 share pairs), T2 material (0-1, 3-1),
+/// T3 material (4 then 2: a->b->bee; 5 then 0: c->a->zed).
+const FMAPS: [&[(&str, &str)]; 6] = [
+    &[("a", "zed")],
+    &[("a", "bee")],
+    &[("b", "bee")],
+    &[("a", "zed"), ("b", "bee")],
+    &[("a", "b")],
+    &[("c", "a")],
+];
+
+#[derive(Clone, Copy, PartialEq, Debug)]
+enum Flavour {
+    /// design = user, 0..500..1000, every bound written out
+    Plain,
+    /// user 100..400..900 bent onto design 0..500..1000; bounds at the axis ends are omitted
+    Mapped,
+}
+
+impl Flavour {
+    fn name(self) -> &'static str {
+        match self {
+            Flavour::Plain => "plain",
+            Flavour::Mapped => "mapped",
+        }
+    }
+}
+
+const AXIS_NAMES: [(&str, &str); 2] = [("wght", "Weight"), ("wdth", "Width")];
+const MAPPED: [(f64, f64); 4] = [(100.0, 0.0), (400.0, 500.0), (650.0, 600.0), (900.0, 1000.0)];
+
+fn font_design(n: usize, fl: Flavour) -> dgen::Design {
+    use dgen::*;
+    let axes: Vec<Axis> = (0..n)
+        .map(|i| match fl {
+            Flavour::Plain => Axis::new(AXIS_NAMES[i].0, AXIS_NAMES[i].1, 0.0, 500.0, 1000.0),
+            Flavour::Mapped => {
+                let mut a = Axis::new(AXIS_NAMES[i].0, AXIS_NAMES[i].1, 100.0, 400.0, 900.0);
+                a.map = MAPPED.to_vec();
+                a
+            }
+        })
+        .collect();
+    let mut locs = vec![vec![500.0; n]];
+    for i in 0..n {
+        for v in [0.0, 1000.0] {
+            let mut l = vec![500.0; n];
+            l[i] = v;
+            locs.push(l);
+        }
+    }
+    let nm = locs.len();
+    let mut d = Design::skeleton("RulesC16", axes, locs);
+    for (gi, name) in FGLYPHS.iter().enumerate() {
+        let cps: Vec<u32> = if name.len() == 1 { vec![name.as_bytes()[0] as u32] } else { vec![] };
+        let mut g = Glyph::new(name, &cps);
+        for m in 0..nm {
+            let w = 200.0 + 20.0 * gi as f64 + 15.0 * m as f64;
+            g.layers.insert(
+                m,
+                Layer { advance: w + 100.0, contours: vec![shapes::rect(50.0, 0.0, 50.0 + w, 500.0 + 10.0 * gi as f64)], ..Default::default() },
+            );
+        }
+        d.glyphs.push(g);
+    }
+    d
+}
+
+/// design coordinate of a normalized value on the axes above
+fn design_of(nv: f64) -> f64 {
+    500.0 + 500.0 * nv
+}
+
+/// own inverse of the MAPPED nodes (strictly increasing)
+fn user_of_design(fl: Flavour, d: f64) -> f64 {
+    match fl {
+        Flavour::Plain => d,
+        Flavour::Mapped => {
+            for w in MAPPED.windows(2) {
+                if d >= w[0].1 && d <= w[1].1 {
+                    return w[0].0 + (d - w[0].1) * (w[1].0 - w[0].0) / (w[1].1 - w[0].1);
+                }
+            }
+            f64::NAN
+        }
+    }
+}
+
+#[derive(Clone, Debug)]
+struct FontCase {
+    n: usize,
+    flavour: Flavour,
+    processing_last: bool,
+    /// per rule: boxes (per axis interval) and index into FMAPS
+    rules: Vec<(Vec<Vec<Iv>>, usize)>,
+}
+
+impl FontCase {
+    fn json(&self, p: Option<u32>) -> Value {
+        json!({
+            "part": "font", "axes": self.n, "flavour": self.flavour.name(), "processing_last": self.processing_last,
+            "rules": self.rules.iter().map(|(boxes, m)| json!({
+                "boxes": boxes.iter().map(|b| b.iter().map(|iv| match iv {
+                    Some((lo, hi)) => json!([lo, hi]),
+                    None => Value::Null,
+                }).collect::<Vec<_>>()).collect::<Vec<_>>(),
+                "map": m,
+                "subs": FMAPS[*m].iter().map(|(a, b)| json!([a, b])).collect::<Vec<_>>(),
+            })).collect::<Vec<_>>(),
+            "point": p.map(|p| point(self.n, p)),
+        })
+    }
+    fn describe(&self) -> String {
+        let rules: Vec<String> = self
+            .rules
+            .iter()
+            .enumerate()
+            .map(|(i, (boxes, m))| {
+                let bs: Vec<String> = boxes
+                    .iter()
+                    .map(|b| {
+                        let parts: Vec<String> = b
+                            .iter()
+                            .enumerate()
+                            .map(|(a, iv)| match iv {
+                                Some((lo, hi)) => format!("{}:[{},{}]", AXIS_NAMES[a].0, design_of(*lo), design_of(*hi)),
+                                None => format!("{}:*", AXIS_NAMES[a].0),
+                            })
+                            .collect();
+                        format!("{{{}}}", parts.join(" "))
+                    })
+                    .collect();
+                let subs: Vec<String> = FMAPS[*m].iter().map(|(a, b)| format!("{a}->{b}")).collect();
+                format!("rule{} {} => {}", i + 1, bs.join(" | "), subs.join(","))
+            })
+            .collect();
+        format!(
+            "{} axis/axes ({}{}; design coordinates): {}",
+            self.n,
+            self.flavour.name(),
+            if self.processing_last { ", processing=last" } else { "" },
+            rules.join("; ")
+        )
+    }
+    fn dgen_rules(&self) -> Vec<dgen::Rule> {
+        self.rules
+            .iter()
+            .enumerate()
+            .map(|(i, (boxes, m))| dgen::Rule {
+                name: format!("r{i}"),
+                condition_sets: boxes
+                    .iter()
+                    .map(|b| {
+                        b.iter()
+                            .enumerate()
+                            .filter_map(|(a, iv)| {
+                                iv.map(|(lo, hi)| {
+                                    let open = self.flavour == Flavour::Mapped;
+                                    (
+                                        AXIS_NAMES[a].1.to_string(),
+                                        (!(open && lo == -1.0)).then(|| design_of(lo)),
+                                        (!(open && hi == 1.0)).then(|| design_of(hi)),
+                                    )
+                                })
+                            })
+                            .collect()
+                    })
+                    .collect(),
+                subs: FMAPS[*m].iter().map(|(a, b)| (a.to_string(), b.to_string())).collect(),
+            })
+            .collect()
+    }
+    /// rules whose region contains grid point p, in order
+    fn active(&self, p: u32) -> Vec<usize> {
+        let bit = 1u64 << p;
+        (0..self.rules.len())
+            .filter(|i| self.rules[*i].0.iter().any(|b| own_mask(self.n, b) & bit != 0))
+            .collect()
+    }
+}
+
+#[derive(Clone, Copy, PartialEq, Debug)]
+enum FTier {
+    None,
+    T1,
+    T2,
+    T3,
+}
+
+/// designspaceLib.processRules on the glyph list FINPUTS: every active rule, in order, renames the
+/// running glyph names through its substitution dictionary. Also which tier the point falls into.
+fn process_rules(case: &FontCase, active: &[usize]) -> (Vec<String>, FTier) {
+    let mut names: Vec<String> = FINPUTS.iter().map(|s| s.to_string()).collect();
+    for r in active {
+        let subs = FMAPS[case.rules[*r].1];
+        for nme in names.iter_mut() {
+            if let Some((_, to)) = subs.iter().find(|(from, _)| from == nme) {
+                *nme = to.to_string();
+            }
+        }
+    }
+    let mut chaining = false;
+    let mut conflict = false;
+    for (x, i) in active.iter().enumerate() {
+        for j in &active[x + 1..] {
+            let (a, b) = (FMAPS[case.rules[*i].1], FMAPS[case.rules[*j].1]);
+            if a.iter().any(|(_, o)| b.iter().any(|(i2, _)| i2 == o)) || b.iter().any(|(_, o)| a.iter().any(|(i2, _)| i2 == o)) {
+                chaining = true;
+            }
+            if a.iter().any(|(i1, o1)| b.iter().any(|(i2, o2)| i1 == i2 && o1 != o2)) {
+                conflict = true;
+            }
+        }
+    }
+    let tier = if active.is_empty() {
+        FTier::None
+    } else if chaining {
+        FTier::T3
+    } else if conflict {
+        FTier::T2
+    } else {
+        FTier::T1
+    };
+    (names, tier)
+}
+
+#[derive(Default, Clone)]
+struct FCounts {
+    fonts: u64,
+    compile_failures: u64,
+    points: u64,
+    t_none: u64,
+    t1: u64,
+    t2: u64,
+    t3: u64,
+    t3_differs: u64,
+    fonts_with_overlap: u64,
+    fonts_with_t2: u64,
+    fonts_with_featvars: u64,
+    max_records: u64,
+    glyph_changes_seen: u64,
+}
+
+impl FCounts {
+    fn add(&mut self, o: &FCounts) {
+        self.fonts += o.fonts;
+        self.compile_failures += o.compile_failures;
+        self.points += o.points;
+        self.t_none += o.t_none;
+        self.t1 += o.t1;
+        self.t2 += o.t2;
+        self.t3 += o.t3;
+        self.t3_differs += o.t3_differs;
+        self.fonts_with_overlap += o.fonts_with_overlap;
+        self.fonts_with_t2 += o.fonts_with_t2;
+        self.fonts_with_featvars += o.fonts_with_featvars;
+        self.max_records = self.max_records.max(o.max_records);
+        self.glyph_changes_seen += o.glyph_changes_seen;
+    }
+}
+
+/// Judge one compiled font. Returns (class key, witness point, message) findings.
+fn judge_font(case: &FontCase, font: &[u8], cnt: &mut FCounts) -> Vec<(String, Option<u32>, String)> {
+    let mut bad = vec![];
+    let vf = match otvar::VFont::new(font) {
+        Ok(v) => v,
+        Err(e) => return vec![("font-unreadable".into(), None, format!("otvar: {e}"))],
+    };
+    let lf = match otlayout::LFont::new(font) {
+        Ok(v) => v,
+        Err(e) => return vec![("font-unreadable".into(), None, format!("otlayout: {e}"))],
+    };
+    let gid = |n: &str| vf.gid_for_name(n);
+    let names = vf.glyph_names();
+    let Some(input_gids) = FINPUTS.iter().map(|n| gid(n)).collect::<Option<Vec<u16>>>() else {
+        return vec![("font-unreadable".into(), None, format!("glyph names {names:?} lack one of {FINPUTS:?}"))];
+    };
+    let records = lf.feature_variation_record_count(otlayout::Table::Gsub) as u64;
+    if records > 0 {
+        cnt.fonts_with_featvars += 1;
+    }
+    cnt.max_records = cnt.max_records.max(records);
+    let tag = if case.processing_last { "rclt" } else { "rvrn" };
+    let npoints = if case.n == 1 { 8 } else { 64 };
+    let mut overlap = false;
+    let mut any_t2 = false;
+    let mut seen: [Option<&'static str>; 4] = [None; 4];
+    for p in 0..npoints {
+        cnt.points += 1;
+        let nv = point(case.n, p);
+        let user: Vec<(String, f64)> = nv
+            .iter()
+            .enumerate()
+            .map(|(a, v)| (AXIS_NAMES[a].0.to_string(), user_of_design(case.flavour, design_of(*v))))
+            .collect();
+        let coords = vf.normalize(&user);
+        if coords.len() != case.n || coords.iter().zip(&nv).any(|(c, v)| (c - v).abs() > 0.01) {
+            if seen[0].is_none() {
+                seen[0] = Some("x");
+                bad.push(("normalization-off".into(), Some(p), format!("user {user:?} normalizes to {coords:?}, the source puts it at {nv:?}")));
+            }
+            continue;
+        }
+        let active = case.active(p);
+        if active.len() >= 2 {
+            overlap = true;
+        }
+        let (want, tier) = process_rules(case, &active);
+        let req = otlayout::ShapeRequest {
+            script: "DFLT".into(),
+            lang: "dflt".into(),
+            features: otlayout::FeatureSel::Only(vec![tag.to_string()]),
+            coords: coords.clone(),
+            gsub: true,
+            gpos: false,
+            alternate_index: 0,
+        };
+        let res = lf.shape(&req, &input_gids);
+        if !res.problems.is_empty() && seen[1].is_none() {
+            seen[1] = Some("x");
+            bad.push(("layout-problems".into(), Some(p), format!("otlayout reports {:?}", res.problems)));
+        }
+        let got: Vec<String> = res
+            .gids()
+            .iter()
+            .map(|g| names.get(*g as usize).cloned().unwrap_or_else(|| format!("gid{g}")))
+            .collect();
+        if got.iter().zip(FINPUTS).any(|(g, i)| g != i) {
+            cnt.glyph_changes_seen += 1;
+        }
+        match tier {
+            FTier::None => cnt.t_none += 1,
+            FTier::T1 => cnt.t1 += 1,
+            FTier::T2 => {
+                cnt.t2 += 1;
+                any_t2 = true;
+            }
+            FTier::T3 => cnt.t3 += 1,
+        }
+        if got == want {
+            continue;
+        }
+        let msg = format!(
+            "at normalized {nv:?} (user {:?}) the active rules are {:?}; processRules turns {FINPUTS:?} into {want:?}, the font's {tag} feature into {got:?}",
+            user.iter().map(|(_, v)| *v).collect::<Vec<_>>(),
+            active.iter().map(|i| format!("rule{}", i + 1)).collect::<Vec<_>>()
+        );
+        match tier {
+            FTier::None if seen[2].is_none() => {
+                seen[2] = Some("x");
+                bad.push(("featvar-substitution-without-rule".into(), Some(p), msg));
+            }
+            FTier::T1 if seen[2].is_none() => {
+                seen[2] = Some("x");
+                bad.push(("featvar-substitution-mismatch:T1".into(), Some(p), msg));
+            }
+            FTier::T2 if seen[3].is_none() => {
+                seen[3] = Some("x");
+                // an input glyph that is not contested must still be right
+                let contested: Vec<bool> = FINPUTS
+                    .iter()
+                    .map(|g| {
+                        let outs: std::collections::BTreeSet<&str> = active
+                            .iter()
+                            .flat_map(|r| FMAPS[case.rules[*r].1].iter())
+                            .filter(|(i, _)| i == g)
+                            .map(|(_, o)| *o)
+                            .collect();
+                        outs.len() > 1
+                    })
+                    .collect();
+                let only_contested = (0..4).all(|i| contested[i] || got.get(i) == want.get(i));
+                bad.push((
+                    if only_contested { "same-input-precedence:font-level".to_string() } else { "featvar-substitution-mismatch:T2-uncontested-glyph".to_string() },
+                    Some(p),
+                    msg,
+                ));
+            }
+            FTier::T3 => cnt.t3_differs += 1,
+            _ => {}
+        }
+    }
+    if overlap {
+        cnt.fonts_with_overlap += 1;
+    }
+    if any_t2 {
+        cnt.fonts_with_t2 += 1;
+    }
+    bad
+}
+
+/// One worker-local build directory: UFOs are written once, the designspace per case.
+struct Rig {
+    scratch: vcore::Scratch,
+    design: dgen::Design,
+    key: (usize, Flavour),
+}
+
+impl Rig {
+    fn new(n: usize, fl: Flavour) -> Rig {
+        let scratch = vcore::Scratch::new("c16");
+        let design = font_design(n, fl);
+        if let Err(e) = design.write_designspace(scratch.path()) {
+            vcore::machinery_error(&format!("cannot write sources: {e}"));
+        }
+        Rig { scratch, design, key: (n, fl) }
+    }
+    fn compile(&mut self, case: &FontCase) -> Result<Vec<u8>, fcx::Failure> {
+        self.design.rules = case.dgen_rules();
+        self.design.rules_processing_last = case.processing_last;
+        let path = self.scratch.join("design.designspace");
+        if let Err(e) = std::fs::write(&path, self.design.designspace_xml()) {
+            vcore::machinery_error(&format!("cannot write designspace: {e}"));
+        }
+        fcx::compile(&path, &fcx::Opts::default(), None)
+    }
+}
+
+fn run_font_case(case: &FontCase, rig: &mut Rig, cnt: &mut FCounts) -> Vec<(String, Option<u32>, String)> {
+    cnt.fonts += 1;
+    match rig.compile(case) {
+        Ok(font) => judge_font(case, &font, cnt),
+        Err(f) => {
+            cnt.compile_failures += 1;
+            let (kind, msg) = match f {
+                fcx::Failure::Error(e) => ("compile-error", e),
+                fcx::Failure::Panic(e) => ("compile-panic", e),
+            };
+            vec![(kind.to_string(), None, format!("the compiler fails on valid rules: {msg}"))]
+        }
+    }
+}
+
+struct FLevel {
+    name: &'static str,
+    n: usize,
+    flavour: Flavour,
+    last: bool,
+    /// per rule position: may the rule have two boxes?
+    pos: Vec<Pos>,
+    coarse: bool,
+    maps: Vec<Vec<usize>>,
+}
+
+fn tuples(k: usize, m: usize) -> Vec<Vec<usize>> {
+    let mut v = vec![vec![]];
+    for _ in 0..k {
+        v = v
+            .into_iter()
+            .flat_map(|t: Vec<usize>| {
+                (0..m).map(move |x| {
+                    let mut t = t.clone();
+                    t.push(x);
+                    t
+                })
+            })
+            .collect();
+    }
+    v
+}
+
+fn flevels(tier: Tier) -> Vec<FLevel> {
+    use Flavour::*;
+    use Pos::*;
+    let pairs: Vec<Vec<usize>> = [[0, 0], [0, 2], [0, 1], [1, 0], [3, 1], [4, 2]].iter().map(|p| p.to_vec()).collect();
+    let triples: Vec<Vec<usize>> = [[0, 1, 0], [0, 1, 2], [0, 2, 3], [1, 3, 0], [5, 0, 1], [0, 2, 5], [1, 0, 1], [3, 1, 2]].iter().map(|p| p.to_vec()).collect();
+    let mut v = vec![
+        FLevel { name: "1 axis, 1 rule of 1-2 boxes", n: 1, flavour: Plain, last: false, pos: vec![Any], coarse: false, maps: tuples(1, 6) },
+        FLevel { name: "1 axis, 2 one-box rules", n: 1, flavour: Plain, last: false, pos: vec![Single, Single], coarse: false, maps: tuples(2, 6) },
+        FLevel { name: "1 axis, processing=last, 2 one-box rules", n: 1, flavour: Plain, last: true, pos: vec![Single, Single], coarse: false, maps: pairs[..4].to_vec() },
+        FLevel { name: "2 axes, coarse intervals, 1 rule", n: 2, flavour: Plain, last: false, pos: vec![Single], coarse: true, maps: tuples(1, 6) },
+    ];
+    match tier {
+        Tier::Quick => {
+            v.push(FLevel { name: "1 axis with <map>, open bounds, rule of 1-2 boxes then one-box rule", n: 1, flavour: Mapped, last: false, pos: vec![Any, Single], coarse: false, maps: pairs.clone() });
+            v.push(FLevel { name: "1 axis, 3 one-box rules", n: 1, flavour: Plain, last: false, pos: vec![Single, Single, Single], coarse: false, maps: triples[..4].to_vec() });
+            v.push(FLevel { name: "2 axes, coarse intervals, 2 one-box rules", n: 2, flavour: Plain, last: false, pos: vec![Single, Single], coarse: true, maps: pairs.clone() });
+        }
+        Tier::Thorough => {
+            v.push(FLevel { name: "1 axis, 2 rules of 1-2 boxes", n: 1, flavour: Plain, last: false, pos: vec![Any, Any], coarse: false, maps: tuples(2, 6) });
+            v.push(FLevel { name: "1 axis with <map>, open bounds, 2 rules of 1-2 boxes", n: 1, flavour: Mapped, last: false, pos: vec![Any, Any], coarse: false, maps: pairs.clone() });
+            v.push(FLevel { name: "1 axis, 3 one-box rules", n: 1, flavour: Plain, last: false, pos: vec![Single, Single, Single], coarse: false, maps: tuples(3, 6) });
+            v.push(FLevel { name: "1 axis, 3 rules, first of 1-2 boxes", n: 1, flavour: Plain, last: false, pos: vec![Any, Single, Single], coarse: false, maps: triples.clone() });
+            v.push(FLevel { name: "2 axes, 1 one-box rule", n: 2, flavour: Plain, last: false, pos: vec![Single], coarse: false, maps: tuples(1, 6) });
+            v.push(FLevel { name: "2 axes, 2 one-box rules", n: 2, flavour: Plain, last: false, pos: vec![Single, Single], coarse: false, maps: pairs.clone() });
+            v.push(FLevel { name: "2 axes with <map>, coarse intervals, 2 one-box rules", n: 2, flavour: Mapped, last: false, pos: vec![Single, Single], coarse: true, maps: pairs.clone() });
+        }
+    }
+    v
+}
+
+/// rule shapes (lists of boxes) of a level: one-box shapes first
+fn font_shapes(n: usize, coarse: bool) -> (Vec<Vec<Vec<Iv>>>, usize) {
+    let ends: Vec<f64> = if coarse { vec![-1.0, 0.0, 1.0] } else { ENDS.to_vec() };
+    let mut ivs: Vec<Iv> = vec![None];
+    for (i, a) in ends.iter().enumerate() {
+        for b in &ends[i + 1..] {
+            ivs.push(Some((*a, *b)));
+        }
+    }
+    let boxes: Vec<Vec<Iv>> = if n == 1 {
+        ivs.iter().map(|x| vec![*x]).collect()
+    } else {
+        ivs.iter().flat_map(|x| ivs.iter().map(move |y| vec![*x, *y])).collect()
+    };
+    let mut shapes: Vec<Vec<Vec<Iv>>> = boxes.iter().map(|b| vec![b.clone()]).collect();
+    let n_single = shapes.len();
+    for i in 0..boxes.len() {
+        for j in i + 1..boxes.len() {
+            shapes.push(vec![boxes[i].clone(), boxes[j].clone()]);
+        }
+    }
+    (shapes, n_single)
+}
+
+fn level_cases(lv: &FLevel) -> Vec<FontCase> {
+    let (shapes, n_single) = font_shapes(lv.n, lv.coarse);
+    let lim: Vec<usize> = lv.pos.iter().map(|p| if *p == Pos::Single { n_single } else { shapes.len() }).collect();
+    let mut out = vec![];
+    let mut idx = vec![0usize; lv.pos.len()];
+    'outer: loop {
+        for mt in &lv.maps {
+            out.push(FontCase {
+                n: lv.n,
+                flavour: lv.flavour,
+                processing_last: lv.last,
+                rules: idx.iter().zip(mt).map(|(s, m)| (shapes[*s].clone(), *m)).collect(),
+            });
+        }
+        let mut j = idx.len();
+        loop {
+            if j == 0 {
+                break 'outer;
+            }
+            j -= 1;
+            idx[j] += 1;
+            if idx[j] < lim[j] {
+                break;
+            }
+            idx[j] = 0;
+        }
+    }
+    out
+}
+
+type FSize = (usize, usize, usize, u64);
+
+#[derive(Default)]
+struct FClasses(BTreeMap<String, (u64, FSize, String, Value)>);
+
+impl FClasses {
+    fn add(&mut self, key: String, size: FSize, what: String, replay: Value) {
+        match self.0.get_mut(&key) {
+            Some(e) => {
+                e.0 += 1;
+                if size < e.1 {
+                    *e = (e.0, size, what, replay);
+                }
+            }
+            None => {
+                self.0.insert(key, (1, size, what, replay));
+            }
+        }
+    }
+    fn merge(&mut self, o: FClasses) {
+        for (k, (n, size, w, r)) in o.0 {
+            match self.0.get_mut(&k) {
+                Some(e) => {
+                    e.0 += n;
+                    if size < e.1 {
+                        *e = (e.0, size, w, r);
+                    }
+                }
+                None => {
+                    self.0.insert(k, (n, size, w, r));
+                }
+            }
+        }
+    }
+}
+
+fn part_font(rep: &mut Reporter, tier: Tier) -> Stats {
+    let mut total = FCounts::default();
+    let mut cls = FClasses::default();
+    let mut notes = vec![];
+    let mut samples: Vec<Value> = vec![];
+    let mut seq_base = 0u64;
+    for lv in flevels(tier) {
+        let t = std::time::Instant::now();
+        let cases = level_cases(&lv);
+        let chunk = 64usize;
+        let ntasks = cases.len().div_ceil(chunk);
+        let results = vcore::par_for(ntasks, vcore::ncores(), |ti| {
+            let mut rig = Rig::new(lv.n, lv.flavour);
+            debug_assert!(rig.key == (lv.n, lv.flavour));
+            let mut cnt = FCounts::default();
+            let mut cls = FClasses::default();
+            let mut sample = None;
+            for (ci, case) in cases[ti * chunk..((ti + 1) * chunk).min(cases.len())].iter().enumerate() {
+                let seq = seq_base + (ti * chunk + ci) as u64;
+                let t2_before = cnt.fonts_with_t2;
+                let found = run_font_case(case, &mut rig, &mut cnt);
+                if found.is_empty() && sample.is_none() && cnt.fonts_with_t2 == t2_before && case.rules.len() > 1 && ci == 7 {
+                    sample = Some(json!({"level": lv.name, "source_rules": case.describe(), "verdict": "font agrees with processRules at every grid point"}));
+                }
+                let size: FSize = (case.n, case.rules.len(), case.rules.iter().map(|r| r.0.len() + FMAPS[r.1].len()).sum(), seq);
+                for (key, p, msg) in found {
+                    cls.add(key, size, format!("{}: {msg}", case.describe()), case.json(p));
+                }
+            }
+            (cnt, cls, sample)
+        });
+        seq_base += cases.len() as u64;
+        let mut c = FCounts::default();
+        let mut failing: BTreeMap<String, u64> = BTreeMap::new();
+        let nres = results.len();
+        for (i, (cn, k, s)) in results.into_iter().enumerate() {
+            c.add(&cn);
+            for (key, v) in &k.0 {
+                *failing.entry(key.clone()).or_default() += v.0;
+            }
+            cls.merge(k);
+            if i == nres / 2 || (samples.len() < 2 && i == 0) {
+                samples.extend(s);
+            }
+        }
+        eprintln!("[C16] font level '{}': {} fonts in {:.1}s", lv.name, c.fonts, t.elapsed().as_secs_f64());
+        notes.push(json!({
+            "level": lv.name, "fonts": c.fonts, "points": c.points,
+            "points_no_rule": c.t_none, "points_T1": c.t1, "points_T2": c.t2, "points_T3_not_asserted": c.t3,
+            "T3_points_where_font_differs_from_processRules": c.t3_differs,
+            "fonts_with_overlapping_rules": c.fonts_with_overlap,
+            "failing_fonts_by_class": failing,
+            "seconds": (t.elapsed().as_secs_f64() * 10.0).round() / 10.0,
+        }));
+        total.add(&c);
+    }
+    let failing: BTreeMap<String, u64> = cls.0.iter().map(|(k, v)| (k.clone(), v.0)).collect();
+    for (key, (n, _, what, replay)) in cls.0 {
+        rep.violation(&key, &format!("{what} [{n} font(s) in this class]"), replay);
+    }
+    rep.set("font_levels", notes);
+    rep.set("fonts_compiled", total.fonts);
+    rep.set("font_compile_failures", total.compile_failures);
+    rep.set("font_points_evaluated", total.points);
+    rep.set("font_points_by_tier", json!({"no_rule": total.t_none, "T1": total.t1, "T2": total.t2, "T3_not_asserted": total.t3}));
+    rep.set("font_T3_points_where_font_differs_from_processRules", total.t3_differs);
+    rep.set("fonts_with_overlapping_rules", total.fonts_with_overlap);
+    rep.set("fonts_with_same_input_conflict", total.fonts_with_t2);
+    rep.set("fonts_with_feature_variations", total.fonts_with_featvars);
+    rep.set("max_feature_variation_records", total.max_records);
+    rep.set("font_points_where_some_glyph_was_substituted", total.glyph_changes_seen);
+    rep.set("failing_fonts_by_class", json!(failing));
+    rep.set("font_samples", samples);
+    rep.assume("part (ii): 1-2 axes (0..500..1000 in design coordinates; 'mapped' flavour: user 100..400..900 bent onto it by a <map>), 5 on-axis masters at most, glyphs a b c d zed bee, conditions written in design coordinates; 6 substitution maps; the reference is processRules on [a,b,c,d]; T3 points (an active rule's output is another active rule's input) are evaluated but not asserted");
+    rep.assume("part (ii) judges the glyph ids produced by applying only the rvrn (rclt for processing=last) feature of DFLT/dflt at the normalized coordinates obtained from the font's own fvar/avar for the user-space image of each grid point");
+    Stats {
+        evaluations: total.points,
+        nontrivial: total.fonts_with_overlap,
+    }
+}
+
+fn replay_font(r: &Value) -> ! {
+    let bad = |m: &str| -> ! { vcore::machinery_error(&format!("replay: {m}")) };
+    let n = r.get("axes").and_then(|x| x.as_u64()).unwrap_or_else(|| bad("axes")) as usize;
+    if !(1..=2).contains(&n) {
+        bad("axes must be 1 or 2");
+    }
+    let flavour = match r.get("flavour").and_then(|x| x.as_str()) {
+        Some("mapped") => Flavour::Mapped,
+        _ => Flavour::Plain,
+    };
+    let mut rules = vec![];
+    for rj in r.get("rules").and_then(|x| x.as_array()).unwrap_or_else(|| bad("rules")) {
+        let mut boxes: Vec<Vec<Iv>> = vec![];
+        for b in rj.get("boxes").and_then(|x| x.as_array()).unwrap_or_else(|| bad("boxes")) {
+            let b: Vec<Iv> = b
+                .as_array()
+                .unwrap_or_else(|| bad("box"))
+                .iter()
+                .map(|iv| iv.as_array().map(|a| (a[0].as_f64().unwrap_or(-1.0), a[1].as_f64().unwrap_or(1.0))))
+                .collect();
+            if b.len() != n {
+                bad("box arity");
+            }
+            boxes.push(b);
+        }
+        let m = rj.get("map").and_then(|x| x.as_u64()).unwrap_or_else(|| bad("map")) as usize;
+        if m >= FMAPS.len() {
+            bad("map index");
+        }
+        rules.push((boxes, m));
+    }
+    let case = FontCase {
+        n,
+        flavour,
+        processing_last: r.get("processing_last").and_then(|x| x.as_bool()).unwrap_or(false),
+        rules,
+    };
+    println!("{}", case.describe());
+    let mut rig = Rig::new(n, flavour);
+    let mut cnt = FCounts::default();
+    let found = run_font_case(&case, &mut rig, &mut cnt);
+    for (k, p, m) in &found {
+        println!("{k}: {m} (grid point {:?})", p.map(|p| point(n, p)));
+    }
+    drop(rig);
+    let fails = !found.is_empty();
+    println!("replay: the case {}", if fails { "still fails" } else { "no longer fails" });
+    vcore::cleanup_scratch();
+    std::process::exit(fails as i32)
+}
 
 fn replay(path: &Path) -> ! {
     let bad = |m: &str| -> ! { vcore::machinery_error(&format!("replay {path:?}: {m}")) };
@@ -792,6 +1571,9 @@ fn replay(path: &Path) -> ! {
     let want_key = v.get("key").and_then(|k| k.as_str()).map(|s| s.to_string());
     let r = v.get("replay").unwrap_or(&v);
     std::panic::set_hook(Box::new(|_| {}));
+    if r.get("part").and_then(|x| x.as_str()) == Some("font") {
+        replay_font(r);
+    }
     if let Some(iv) = r.get("open_end_interval").and_then(|x| x.as_array()) {
         let ivs = vec![Some((iv[0].as_f64().unwrap_or(0.0), iv[1].as_f64().unwrap_or(0.0))), None];
         let fails = nbox(&tags(2), &ivs, true) != nbox(&tags(2), &ivs, false);
@@ -849,9 +1631,9 @@ fn replay(path: &Path) -> ! {
         println!("{k}: {m}");
         keys.push(k.to_string());
     }
-    if let Some((_, m)) = &vd.precedence {
-        println!("same-input-precedence: {m}");
-        keys.push("same-input-precedence".to_string());
+    if let Some((_, k, m)) = &vd.precedence {
+        println!("{k}: {m}");
+        keys.push(k.to_string());
     }
     if let Some(k) = want_key {
         println!("recorded class: {k}; classes now: {keys:?}");
@@ -871,11 +1653,11 @@ fn main() {
     std::panic::set_hook(Box::new(|_| {}));
     let pure = part_pure(&mut rep, args.tier);
     std::panic::set_hook(hook);
-    // let font = part_font(&mut rep, args.tier);
-    rep.set("evaluations", pure.evaluations);
-    rep.set("distinct_nontrivial", pure.nontrivial);
-    rep.set("rule", "evaluations = grid points judged (every point of the offset grid for every rule list; points are judged in groups that share the set of containing rules and the first containing output box). distinct_nontrivial = distinct rule lists (distinct by construction of the enumeration) in which at least two rules contain a common grid point, i.e. substitutions really have to be combined");
+    let font = part_font(&mut rep, args.tier);
+    rep.set("evaluations", pure.evaluations + font.evaluations);
+    rep.set("distinct_nontrivial", pure.nontrivial + font.nontrivial);
+    rep.set("rule", "evaluations = grid points judged (every point of the offset grid for every rule list; points are judged in groups that share the set of containing rules and the first containing output box). distinct_nontrivial = distinct rule lists (distinct by construction of the enumeration) in which at least two rules contain a common grid point, i.e. substitutions really have to be combined; part (ii) adds the grid points judged on compiled fonts and the compiled fonts whose rules overlap at some grid point");
     rep.set("exhaustive", true);
-    rep.set("parts_implemented", json!(["i: overlay_feature_variations"]));
+    rep.set("parts_implemented", json!(["i: overlay_feature_variations", "ii: designspace rules -> GSUB FeatureVariations"]));
     rep.finish()
 }
